@@ -192,8 +192,29 @@ def _content():
 
 
 def _segs(lo=1, hi=3):
-    return st.lists(st.one_of(st.sampled_from(SEG), st.sampled_from(SEG[:4]), gen.names()),
-                    min_size=lo, max_size=hi)
+    return st.lists(_name(), min_size=lo, max_size=hi)
+
+
+def _name():
+    return st.one_of(st.sampled_from(SEG), st.sampled_from(SEG[:4]), gen.names())
+
+
+_WIDTH = [[1, 2, 2, 3, 3, 4], [1, 1, 2, 2, 3], [1, 1, 2], [1]]
+
+
+@st.composite
+def _tree(draw, depth=0):
+    """Nested name -> content | subtree, nesting more often than gen.trees (depth <= 4)."""
+    out = {}
+    for _ in range(draw(st.sampled_from(_WIDTH[depth]))):
+        name = draw(_name())
+        if name in out:
+            continue
+        if depth < 3 and draw(st.sampled_from([True, False, False])):
+            out[name] = draw(_tree(depth + 1))
+        else:
+            out[name] = draw(_content())
+    return out
 
 
 def _edit():
@@ -220,12 +241,18 @@ def _jsonable(x):
 
 @st.composite
 def cases(draw):
-    big = gen.trees(max_files=6, max_depth=3, content=_content())
-    tree = draw(st.one_of(*([big] * 8), *([gen.trees(max_files=3, max_depth=2, content=gen.small_contents())] * 3),
-                          st.just({})))
+    # selectors are drawn with sampled_from: one_of over repeated branches does not weight them
+    sel = draw(st.sampled_from(range(16)))
+    if sel == 0:
+        tree = {}
+    elif sel < 4:
+        tree = draw(gen.trees(max_files=3, max_depth=2, content=gen.small_contents()))
+    else:
+        tree = draw(_tree())
     form = draw(st.sampled_from(["explicit"] * 5 + ["lazy"] * 4 + ["implicit"]))
     links = draw(st.sampled_from(COPY_LINKS if form == "implicit" else LINKS))
-    edits = draw(st.one_of(*([st.lists(_edit(), min_size=1, max_size=6)] * 9), st.just([])))
+    nedits = draw(st.sampled_from([0, 1, 1, 2, 2, 2, 3, 3, 3, 4, 4, 5, 6]))
+    edits = [draw(_edit()) for _ in range(nedits)]
     if draw(st.sampled_from([False] * 24 + [True])):
         edits = [("wipe",)]
     missing = []
